@@ -468,6 +468,75 @@ def _int_cmp_match(e):
     return out
 
 
+def _assigned_locals(x):
+    out = set()
+    for n in walk(x):
+        if n.get('k') in ('Assign', 'AssignOp'):
+            for t in walk(n['ch'][0]):
+                if t.get('k') == 'Path' and t.get('res') == 'local':
+                    out.add(t['local'])
+    return out
+
+
+def _subst_local(x, lid, repl):
+    """x with every read of local `lid` replaced by `repl` (not descending into closures)"""
+    if isinstance(x, list):
+        return [_subst_local(y, lid, repl) for y in x]
+    if not isinstance(x, dict):
+        return x
+    if x.get('k') == 'Path' and x.get('res') == 'local' and x.get('local') == lid:
+        return repl
+    if x.get('k') == 'Closure':
+        return x
+    return {key: (_subst_local(v, lid, repl) if isinstance(v, (dict, list)) and key not in ('targs', 'adj', 'pat', 'params')
+                  else v) for key, v in x.items()}
+
+
+def _inline_bool_lets(blk):
+    stmts = list(blk['stmts'])
+    tail = blk.get('expr')
+    changed = False
+    for i, st in enumerate(stmts):
+        if st.get('k') != 'Let' or 'init' not in st or st['pat'].get('k') != 'Binding' or \
+                st['pat'].get('mut') or st['pat'].get('ty') != 'bool':
+            continue
+        lid = st['pat']['local']
+        init = st['init']
+        if any(n.get('k') in ('Closure', 'Assign', 'AssignOp', 'Ret') for n in walk(init)):
+            continue
+        reads = {n['local'] for n in walk(init) if n.get('k') == 'Path' and n.get('res') == 'local'}
+        dirty = set()
+        items = [(j, stmts[j]) for j in range(i + 1, len(stmts))] + ([('tail', tail)] if tail is not None else [])
+        for j, it in items:
+            node = it.get('e') if isinstance(j, int) and it.get('k') in ('Semi', 'Expr') else \
+                (it.get('init') if isinstance(j, int) and it.get('k') == 'Let' else (it if j == 'tail' else None))
+            if node is not None and not (reads & dirty):
+                pn = peel(node)
+                tgt = None
+                if pn.get('k') in ('If', 'Match') and pn.get('ch'):
+                    tgt = 0
+                if tgt is not None and any(n.get('k') == 'Path' and n.get('res') == 'local' and n.get('local') == lid
+                                           for n in walk(pn['ch'][0])) and pn['ch'][0].get('k') != 'LetExpr':
+                    new_pn = dict(pn)
+                    new_pn['ch'] = [_subst_local(pn['ch'][0], lid, init)] + list(pn['ch'][1:])
+                    if j == 'tail':
+                        tail = new_pn
+                    elif it.get('k') == 'Let':
+                        stmts[j] = dict(it, init=new_pn)
+                    else:
+                        stmts[j] = dict(it, e=new_pn)
+                    changed = True
+                    it = stmts[j] if isinstance(j, int) else tail
+            dirty |= _assigned_locals(it if isinstance(it, dict) else {})
+    if not changed:
+        return blk
+    out = dict(blk)
+    out['stmts'] = stmts
+    if tail is not None:
+        out['expr'] = tail
+    return out
+
+
 def _only_break(b):
     """a block that does nothing but `break` (no label, no value)"""
     b = peel(b)
@@ -615,6 +684,28 @@ def normalize(e):
                 ('expr' not in nbb or (peel(nbb['expr']).get('k') == 'Tup' and not peel(nbb['expr']).get('ch')))
             return {'k': 'If', 'ch': [le, blk(sb)] + ([] if empty_else and e.get('ty') == '()' else [nbb]),
                     'sp': e.get('sp'), 'id': e.get('id'), 'ty': e.get('ty')}
+    # `match o { Some(p) if g => A, _ => B }` is `if let Some(p) = o { if g { A } else { B } } else { B }`
+    if k == 'Match' and not e.get('src', '').endswith('Desugar') and len(e.get('arms', [])) == 2 and \
+            'guard' in e['arms'][0] and 'guard' not in e['arms'][1]:
+        a0, a1 = e['arms']
+        p0, p1 = a0['pat'], a1['pat']
+        if p0.get('k') == 'TupleStruct' and strip_generics(p0.get('def', '')).endswith('::Some') and \
+                (p1.get('k') == 'Wild' or (p1.get('k') == 'Binding' and not p1.get('ch'))):
+            def blk2(x):
+                return x if x.get('k') == 'Block' else {'k': 'Block', 'stmts': [], 'expr': x,
+                                                        'sp': x.get('sp'), 'ty': x.get('ty')}
+            nb = blk2(a1['body'])
+            empty_else = not nb.get('stmts') and \
+                ('expr' not in nb or (peel(nb['expr']).get('k') == 'Tup' and not peel(nb['expr']).get('ch'))
+                 or (peel(nb['expr']).get('k') == 'Block' and not peel(nb['expr']).get('stmts')
+                     and 'expr' not in peel(nb['expr'])))
+            drop_else = empty_else and e.get('ty') == '()'
+            inner = {'k': 'If', 'ch': [a0['guard'], blk2(a0['body'])] + ([] if drop_else else [nb]),
+                     'sp': e.get('sp'), 'ty': e.get('ty')}
+            le = {'k': 'LetExpr', 'pat': p0, 'ch': [e['ch'][0]], 'sp': e.get('sp'), 'ty': 'bool'}
+            return {'k': 'If', 'ch': [le, {'k': 'Block', 'stmts': [], 'expr': inner, 'sp': e.get('sp'),
+                                          'ty': e.get('ty')}] + ([] if drop_else else [nb]),
+                    'sp': e.get('sp'), 'id': e.get('id'), 'ty': e.get('ty')}
     # `iter.for_each(|p| body)` is `for p in iter { body }` (a closure body without `return`)
     if k == 'MethodCall' and e.get('method') == 'for_each' and len(e.get('ch', [])) == 2 and \
             callee_is(e, 'Iterator::for_each'):
@@ -627,6 +718,10 @@ def normalize(e):
                 it = peel(it)['ch'][0]
             return {'k': 'For', 'pat': cl['params'][0], 'ch': [it, cl['ch'][0]],
                     'sp': e.get('sp'), 'id': e.get('id'), 'ty': '()', 'via': 'for_each'}
+    # `let c = a < b; .. if c & d {..}` is `if (a < b) & d {..}` when nothing c reads is assigned
+    # in between
+    if k == 'Block' and e.get('stmts'):
+        e = _inline_bool_lets(e)
     # `let mut i = a; .. while i < b { body; i += 1 }` is `for i in a..b { body }`
     if k == 'Block' and e.get('stmts'):
         e = _while_counters(e)
